@@ -305,6 +305,7 @@ type LagCase struct {
 	Inflow []float64
 	Buffer []float64 // carried-over buffer (length Lag)
 	Runs   int       // the series is fed in this many consecutive calls (>= 1)
+	Pad    int       // extra zero columns in the state row (a batch sizes rows for its widest cell)
 }
 
 func genLag(t *rapid.T) LagCase {
@@ -324,6 +325,7 @@ func genLag(t *rapid.T) LagCase {
 		}
 	}
 	c.Runs = rapid.IntRange(1, 3).Draw(t, "runs")
+	c.Pad = rapid.SampledFrom([]int{0, 0, 1, 2, 5}).Draw(t, "pad")
 	return c
 }
 
@@ -338,7 +340,10 @@ func checkLag(c LagCase) (r pbt.Result) {
 	}
 	// definition: the stream (buffer ++ inflow) delayed by Lag
 	stream := append(append([]float64(nil), c.Buffer...), c.Inflow...)
-	st := append([]float64(nil), c.Buffer...)
+	st := append(append([]float64(nil), c.Buffer...), make([]float64, c.Pad)...)
+	if c.Pad > 0 {
+		r.Label("state-row-wider-than-lag")
+	}
 	var got []float64
 	per := (T + c.Runs - 1) / c.Runs
 	for a := 0; a < T; a += per {
@@ -362,8 +367,14 @@ func checkLag(c LagCase) (r pbt.Result) {
 	}
 	want := stream[T:]
 	if d := simref.DiffBits("final buffer", st[:c.Lag], want); d != "" {
-		r.Failf("lag %d, %d steps in %d call(s): final buffer %v, want %v", c.Lag, T, c.Runs, st, want)
+		r.Failf("lag %d, %d steps in %d call(s), state row %d wide: final buffer %v, want %v", c.Lag, T, c.Runs, c.Lag+c.Pad, st, want)
 		return
+	}
+	for j := c.Lag; j < len(st); j++ {
+		if st[j] != 0 {
+			r.Failf("lag %d: state column %d beyond the buffer was changed to %v", c.Lag, j, st[j])
+			return
+		}
 	}
 	_ = fmt.Sprint
 	return
